@@ -102,7 +102,7 @@ def cases(tier, seed):
                 'n_tuples': 2600,
                 'seed': int(r.randint(1000))})
   # runs that stop by their own convergence test at ordinary tolerances
-  for i in range(24 if q else 800):
+  for i in range(72 if q else 1600):
     r = rng_for('c11-rest', seed, i)
     name = 'ITML_Supervised' if i % 4 == 3 else 'ITML'
     pr = {'prior': PRIORS[(i // 2) % 4], 'gamma': GAMMAS[(i // 3) % 6],
